@@ -41,7 +41,10 @@ def run(ctx):
                                'type-invariant table (I-ITER, I-PP, I-SPLAT, I-SRCH, I-PRE), re-checked at construction sites (TYINV)'],
                  assumptions=['language-level UB that is not a read (out-of-allocation pointer arithmetic) is reported as ARITH notes, not decided here',
                               'allocator / fmt internals are opaque'])
-    cfgs = ctx.cfgs(quick=['x64-std', 'a64'])
+    # release semantics (debug assertions off, wrapping arithmetic): what users run; a debug_assert!
+    # must not be what keeps a read in bounds
+    from .. import configs as _c
+    cfgs = ctx.cfgs(quick=['x64-std@rel', 'a64@rel'], thorough=[c + '@rel' for c in _c.ALL])
     sites, errors, stats = e2common.site_table(ctx, cfgs, KINDS + ('ARITH',))
     for cfg, root, err in errors:
         rep.add('E2-ROOT', root, False, cfg=cfg, detail=err.splitlines()[0][:300])
